@@ -29,12 +29,12 @@ CLAIMS = {
     "C01": dict(
         technique="rapid-generated (source tree, prior destination, option) triples run through the real Send/Receive pair over a harness stream; oracle = independent lstat snapshot vs the tree model",
         text="Tens of thousands of generated source trees and prior destinations (independent trees over a colliding name pool, or 1-5 model edits of the source; fresh, dirty and merge mode; on-disk and synthetic sources; differ metadata/none; owner-rewriting filter; stream capacities 0-64) are synchronised with the real sender and receiver; the destination is then observed with the harness's own lstat/readlink/xattr/sha256 walker and compared two-directionally with the model (path set, types, bytes, 12 mode bits, owner, link targets, device numbers, hard-link partition, ns mtimes, xattrs; merge: overlay with survivors inode-identical). Sampled, no proof.",
-        note="Main run: privileged receiver on tmpfs; a sub-run executes both ends as uid 1000 in a chrooted sub-process. Trees include files with security.capability and non-root owners. Files with equal identity are given equal bytes (precondition of identity-based differencing). Error returns are counted, not judged (C04).",
+        note="Main run: privileged receiver on tmpfs (last shard on ext4), one case in four through the leftovers of an aborted run; a sub-run executes both ends as uid 1000 in a chrooted sub-process. Trees include files with security.capability and non-root owners. Files with equal identity are given equal bytes (precondition of identity-based differencing). Error returns are counted, not judged (C04).",
         ref="4 C01"),
     "C02": dict(
         technique="rapid-generated edit histories (stateful: sync, edit, re-sync ...) against the real Send/Receive; oracle = harness-side identity function over announced STATs and an independent snapshot, REQ log mapped through the STAT index",
         text="Thousands of histories (initial tree, then up to 4 rounds of 0-4 model edits of 16 kinds followed by a re-sync, differ metadata or none, with and without an owner-rewriting filter, on-disk and synthetic sources) are run through the real pair. For every re-sync the set of content requests observed on the wire must equal the set of regular non-link entries whose identity key (computed by the harness from the statement) differs or that are new; equal-key entries must keep inode, bytes, mode, owner and mtime; directories are updated in place; an all-equal re-sync must produce zero requests and zero notifications; the final state must equal the source. Sampled, no proof.",
-        note="The timing-dependent hard-link exception of the statement is modelled as a 'may' set (old link members whose named first member is deleted or replaced). tmpfs, privileged.",
+        note="The timing-dependent hard-link exception of the statement is modelled as a 'may' set (old link members whose named first member is deleted or replaced). A sub-run repeats 'transfer, then re-sync of the unchanged source' with both ends as uid 1000.",
         ref="4 C02"),
     "C05": dict(
         technique="rapid-generated edit histories; oracle = replay of the notification log on a model of the old destination + harness identity function + digests recomputed from the STAT log and bytes read back",
@@ -44,12 +44,12 @@ CLAIMS = {
     "C06": dict(
         technique="rapid-generated source views x request scripts executed by an independent reference receiver against the real Send; protocol monitor over the complete packet log; termination decided by goroutine quiescence",
         text="The real sender is driven by a reference receiver written only from the protocol description (any subset/order of requests, eager requests racing the STAT stream, unpaced bursts of up to 300 requests on capacity-0..64 streams, slow reader, illegal requests; one case in four follows, in the same process, a Send that was cut off in the middle of a file). Every packet it emits is checked: STAT sequence equals the view's listing in component order followed by exactly one marker, per-id framing (payload concatenation = file bytes, exactly one terminator, nothing after, nothing unrequested), FIN echoed exactly once then success, illegal ids fail the call, progress callbacks monotone with one final call. Sampled schedules and scripts, no proof.",
-        note="Closed-loop pairing of fsutil's own two ends is avoided; the trusted peer is harness/refrecv.go. Requests for not-yet-announced ids and for link members are outside the domain.",
+        note="Closed-loop pairing of fsutil's own two ends is avoided; the trusted peer is harness/refrecv.go (two-threaded or single-threaded); one case in four runs the sender over util.NewProtoStream behind an independent framing bridge. Requests for not-yet-announced ids and for link members are outside the domain.",
         ref="4 C06"),
     "C07": dict(
         technique="rapid-generated STAT sequences, chunkings and interleavings executed by an independent reference sender against the real Receive; protocol monitor over the packet log; on-disk check while the receiver waits for the FIN echo",
         text="The real receiver is driven by a reference sender written only from the protocol description (synthetic stats incl. hard-link layouts and special files, prior destinations with identity-equal files, chunkings from 1 byte to 1 MiB, drawn interleavings of ids, DATA racing later STATs, fan-out up to 1100 pending requests, early end of stream). Checked: each REQ names an already-announced regular non-link file whose identity differs, once; FIN only after marker and all terminators; at FIN time every file already holds exactly the bytes sent; success after echo+close, error on early end; final tree equals what was announced. Sampled, no proof.",
-        note="Trusted peer is harness/refsend.go. Hard-link timing exception as in C02.",
+        note="Trusted peer is harness/refsend.go. Hard-link timing exception as in C02. A sub-run runs the receiver as uid 1000 (chrooted sub-process) against the same reference sender.",
         ref="4 C07"),
     "C19": dict(
         technique="rapid-generated trees x selectors x prior destinations through the real Send/Receive pair in metadata-only mode; own listing decoder, REQ log mapped through the STAT index, C01's snapshot oracle on the materialised subset",
